@@ -1,10 +1,11 @@
 import ScVerif.C20.EnterLeave
-/-! Spec (two integer counters), refinement relation and helper lemmas for C20/EnterLeave. -/
+/-! Specs (two integer counters, plain and saturating), refinement relation and helper lemmas for C20/EnterLeave. -/
 namespace ScVerif.C20.EnterLeave
 
-/-- Spec: two plain integer counters. -/
+/-- Spec state: two integer counters. -/
 abbrev Counters := Int × Int
 
+/-- plain counter: an explicit different total replaces, otherwise add one when the direction matches -/
 def specAdjust (val : Option Int) (cur : Int) (inc : Bool) : Int :=
   match val with
   | some v => if v ≠ cur then v else cur + (if inc then 1 else 0)
@@ -14,32 +15,67 @@ def specStep (c : Counters) : Op → Counters
   | .event ev => (specAdjust ev.enterTotal c.1 (ev.direction == 1), specAdjust ev.leaveTotal c.2 (ev.direction == 2))
   | .reset => (0, 0)
 
+/-- saturating counter: the same, but a counter at the int32 maximum stays there -/
+def satAdjust (val : Option Int) (cur : Int) (inc : Bool) : Int :=
+  match val with
+  | some v => if v ≠ cur then v else min (cur + (if inc then 1 else 0)) (max cur maxInt32)
+  | none => min (cur + (if inc then 1 else 0)) (max cur maxInt32)
+
+def satStep (c : Counters) : Op → Counters
+  | .event ev => (satAdjust ev.enterTotal c.1 (ev.direction == 1), satAdjust ev.leaveTotal c.2 (ev.direction == 2))
+  | .reset => (0, 0)
+
 /-- the stored event carries the counters (an absent total counts as 0, as in the code) -/
 def Refines (s : Event) (c : Counters) : Prop :=
   s.enterTotal.getD 0 = c.1 ∧ s.leaveTotal.getD 0 = c.2
 
-/-- a counter that can still be incremented and is a valid int32 -/
-def Safe (c : Counters) : Prop :=
-  -2147483648 ≤ c.1 ∧ c.1 < 2147483647 ∧ -2147483648 ≤ c.2 ∧ c.2 < 2147483647
+/-- both counters can still be incremented -/
+def Safe (c : Counters) : Prop := c.1 < maxInt32 ∧ c.2 < maxInt32
 
 /-- every state the spec passes through (before each op) is safe -/
 def SafeRun : Counters → List Op → Prop
   | _, [] => True
   | c, o :: rest => Safe c ∧ SafeRun (specStep c o) rest
 
-theorem wrap32_succ (x : Int) (h1 : -2147483648 ≤ x) (h2 : x < 2147483647) : wrap32 (x + 1) = x + 1 := by
-  unfold wrap32; omega
-
 theorem adjust_refines (val cur : Option Int) (c : Int) (inc : Bool) (h : cur.getD 0 = c)
-    (h1 : -2147483648 ≤ c) (h2 : c < 2147483647) :
+    (h2 : c < maxInt32) :
     (adjustTotal val cur inc).getD 0 = specAdjust val c inc := by
-  unfold adjustTotal specAdjust
+  unfold adjustTotal specAdjust bump
   simp only [h]
   cases val with
-  | none => cases inc <;> simp [wrap32_succ c h1 h2]
+  | none => cases inc <;> simp [h2]
   | some v =>
     by_cases hv : v = c
-    · subst hv; cases inc <;> simp [wrap32_succ _ h1 h2]
+    · subst hv; cases inc <;> simp [h2]
     · simp [hv]
+
+theorem bump_sat (c : Int) (inc : Bool) :
+    bump c inc = min (c + (if inc then 1 else 0)) (max c maxInt32) := by
+  unfold bump
+  simp only [Int.min_def, Int.max_def]
+  cases inc <;> simp <;> (repeat' split) <;> omega
+
+theorem adjust_refines_sat (val cur : Option Int) (c : Int) (inc : Bool) (h : cur.getD 0 = c) :
+    (adjustTotal val cur inc).getD 0 = satAdjust val c inc := by
+  unfold adjustTotal satAdjust
+  simp only [h]
+  cases val with
+  | none => simp [bump_sat]
+  | some v =>
+    by_cases hv : v = c
+    · subst hv; simp [bump_sat]
+    · simp [hv]
+
+theorem adjust_nonneg (val cur : Option Int) (inc : Bool) (hc : 0 ≤ cur.getD 0) (hv : ∀ v, val = some v → 0 ≤ v) :
+    0 ≤ (adjustTotal val cur inc).getD 0 := by
+  unfold adjustTotal bump
+  cases val with
+  | none => simp only [Option.getD_some]; split <;> omega
+  | some v =>
+    have := hv v rfl
+    simp only
+    split
+    · simpa using this
+    · simp only [Option.getD_some]; split <;> omega
 
 end ScVerif.C20.EnterLeave
